@@ -6,7 +6,12 @@ props = [json.loads(l) for l in open(os.path.join(ROOT, "properties.jsonl"))]
 REG_NOTE = "Small-scope hypothesis (3 identities exhaustively, <=12 in random universes); the harness's runtime-configurable Node<I> types stand in for arbitrary user TypeInfo impls; TLC, the harness projection and serde_json are trusted."
 REG_TECH = "TLA+ Registry spec (explicit recursion): TLC bounded-exhaustive design check, every terminal behaviour replayed on the real Registry, TLC trace validation of random universes under the property's own acceptor"
 WIRE_NOTE = "Bounded enumeration per production plus random registries, not an inductive proof over the grammar; inputs < 64 KiB; TLC, harness projection (public constructors only) and serde_json trusted."
+TX_NOTE = "Corpus is bounded (depth <= 2, thorough 3); the value oracle (harness/vh/src/val.rs) is hand-written from documentation; generated programs are compiled by direct rustc against the harness dependency set rebuilt from /repo."
 CLAIMED = {
+ "C04": dict(cat="model_checking", ref="5/C04", note=TX_NOTE, tech="TLA+ ScaleValue decoder (driven only by the registry) + TypeExpr.BuiltinInfo: TLC enumerates type expressions, generated programs record real registries/values/bytes, TLC decodes every value from the description alone",
+      text="TLC enumerates built-in type expressions; generated programs register each, log the real portable registry, boundary-biased random values with hand-written value trees and their real SCALE bytes; the TLA+ decoder, which sees only the registry, must consume each encoding exactly and recover the tree; every type_info() is also compared with the documented shape (covers char, 19/20-tuples, bit orders)."),
+ "C16": dict(cat="model_checking", ref="5/C16", note=TX_NOTE, tech="TLA+ acceptor over observed ==/cmp/hash matrices vs identities declared by the types, on TLC-enumerated type-expression corpora in generated programs",
+      text="For ~70 expressions per generated program (wrappers of wrappers, all PhantomData instantiations, containers) the full ==, cmp, partial_cmp and hash matrices are logged next to TypeId::of::<T::Identity>() computed by the program itself; TLC checks == is exactly identity equality, cmp is a total order consistent with it, equal => equal hash, and equal identity => equal type_info()."),
  "C08": dict(cat="model_checking", ref="5/C08", note="serde_json::Value -> tagged tree transcoding is lexical and trusted; numbers within u32; presence lattice + random registries, not a proof over all strings.", tech="TLA+ JsonForm spec (documented shape + inverse): TLC checks losslessness over the presence lattice, cases replayed on real serde, random real documents validated by TLC",
       text="JsonOf states the documented shape independently of serde attributes; TLC checks RegOfJson(JsonOf(r)) = r and documented-keys-only over every definition kind x every presence combination; each case goes through real to_value/from_value/to_string/from_str; random registries' real JSON is compared by TLC up to member order."),
  "C19": dict(cat="model_checking", ref="5/C19", note="Draft-07 subset semantics written in TLA+; format is an annotation; unknown keyword = tool error; python jsonschema as second opinion in the thorough tier.", tech="TLA+ JsonSchema semantics evaluated by TLC: the real schemars-generated schema against real serialised documents of the presence lattice and random registries",
